@@ -420,6 +420,7 @@ pub fn wrap_text(pat: &str) -> String {
 
 thread_local! {
     static RE_CACHE: std::cell::RefCell<HashMap<String, std::rc::Rc<regex::Regex>>> = std::cell::RefCell::new(HashMap::new());
+    static RE_CACHE_COST: std::cell::Cell<u64> = std::cell::Cell::new(0);
 }
 
 /// Real engine, compiled once per distinct pattern text per thread (Unicode classes are slow to compile,
@@ -430,10 +431,16 @@ pub fn compile_real(pat: &str) -> Result<std::rc::Rc<regex::Regex>, String> {
         if let Some(r) = c.get(pat) {
             return Ok(r.clone());
         }
-        if c.len() > 1_500 {
+        // The cache is bounded by entry count AND by the time its entries took to compile (a proxy for their
+        // size: `\w{300}` is tens of megabytes, and 1,500 of those per thread exhausted the machine once).
+        let spent = RE_CACHE_COST.with(|k| k.get());
+        if c.len() > 1_500 || spent > 400_000 {
             c.clear();
+            RE_CACHE_COST.with(|k| k.set(0));
         }
+        let t0 = std::time::Instant::now();
         let r = std::rc::Rc::new(compile_real_uncached(pat)?);
+        RE_CACHE_COST.with(|k| k.set(k.get() + t0.elapsed().as_micros() as u64));
         c.insert(pat.to_string(), r.clone());
         Ok(r)
     })
